@@ -126,6 +126,13 @@ fn view_diff(a: &View, b: &View) -> String {
     d.join(" ; ")
 }
 
+fn wr_names_empty(r: &Request) -> bool {
+    match &r.request_type {
+        Some(RequestType::AddCertificate(a)) => a.certificate.names.is_empty(),
+        _ => true,
+    }
+}
+
 fn forwarded(verb: &str) -> bool {
     // activation binds a socket (the value space's addresses cannot be bound); `other`/`empty` are not configuration
     !matches!(verb, "activate" | "deactivate" | "other" | "empty")
@@ -252,9 +259,15 @@ fn run_case(mode: &str, ops: &[String]) -> Outcome {
         match fresh.request(rt) {
             Ok(r) if r.status == ResponseStatus::Failure as i32 => {
                 o.tags.push(format!("bootstrap-failure:{}:{}", words[0], short_msg(&r.message)));
-                let family = ["found no listener", "HSTS is only valid", "Could not parse rule"].iter().any(|m| r.message.contains(m));
+                let family = ["found no listener", "HSTS is only valid", "Could not parse rule", "Could not add route"].iter().any(|m| r.message.contains(m));
+                // AddCertificate with explicit `names`: ConfigState::add_certificate only reads the PEM wrapper
+                // (fingerprint) and never parses the DER, so a PEM block that is not X.509 enters the saved state;
+                // the worker's certificate store parses it and refuses
+                let non_x509 = words[0] == "addcert" && r.message.contains("x509") && !wr_names_empty(&wr.content);
                 o.fail(
-                    if family { "worker-bootstrap-rejects-saved-entry".to_string() } else { format!("worker-bootstrap-rejects:{}", words[0]) },
+                    if family { "worker-bootstrap-rejects-saved-entry".to_string() }
+                    else if non_x509 { "worker-bootstrap-rejects-non-x509-certificate".to_string() }
+                    else { format!("worker-bootstrap-rejects:{}", words[0]) },
                     format!("generated request `{}` is refused by a fresh worker: {}", words.join(" "), r.message.chars().take(160).collect::<String>()),
                 );
             }
@@ -361,6 +374,9 @@ fn corpus(_mode: &str) -> Vec<Vec<String>> {
         s(&["addcluster 1 - 0", "addhttpf 1 4 0 0 0 - 2 0 0", hl0, "addhttpf 1 2 0 0 0 - 2 0 0", "addtcpf 1 5 0", "addbackend 1 1 4 - - -"]),
         // a REGEX path that does not compile
         s(&["addcluster 1 - 0", hl0, "addhttpf 1 2 0 1 5 - 2 0 0"]),
+        // a PEM block that is not X.509 (lib/assets/key.pem) with explicit names: the main state accepts it
+        s(&["addhttpsl 3 - 0 0 60 30 3 10 0 - - - - -,-,-,-,-,-,-,-,-,-,-,-,-,-,-,-,-,- - 4", "addcluster 1 - 0", "addbackend 1 1 4 - - -",
+            "addhttpsf 1 3 0 0 0 - 2 0 0", "addcert 3 10 2 0 10 !"]),
     ]
 }
 
